@@ -185,8 +185,19 @@ func c17Check(x *core.Ctx, c *core.Case) {
 	n, _ := strconv.Atoi(c.Get("n"))
 	baseSchema, baseErr := gqlparser.LoadSchema(&ast.Source{Name: "base.graphql", Input: c.Get("base")})
 	var srcs []*ast.Source
+	// in one arrangement out of three one of the sources has no name (an in-memory snippet next to files): an error about a
+	// definition in it has no file to name, and must not borrow the name of another source
+	unnamed := -1
+	if h := core.HashString(c.Get("base") + c.Get("src0")); n > 1 && h%3 == 0 {
+		unnamed = int(h>>8) % n
+		x.Count("arrangements_with_an_unnamed_source")
+	}
 	for j := 0; j < n; j++ {
-		srcs = append(srcs, &ast.Source{Name: fmt.Sprintf("part%d.graphql", j), Input: c.Get(fmt.Sprintf("src%d", j))})
+		name := fmt.Sprintf("part%d.graphql", j)
+		if j == unnamed {
+			name = ""
+		}
+		srcs = append(srcs, &ast.Source{Name: name, Input: c.Get(fmt.Sprintf("src%d", j))})
 	}
 	s, err := gqlparser.LoadSchema(srcs...)
 	fault := c.Get("fault")
